@@ -34,6 +34,8 @@ def run(ctx, rep):
     LR.check_section_slices(fx, rep, "C04.S")
     CF.check_parse(fx, rep, "C04.Sp")
     LR.check_remap_method(fx, rep, "C04.3")
+    # the cache's remap_method decides over the slice the equal-range search hands it: the whole run of entries of that name
+    R1.check_find_range(fx, rep, "C04.R")
     for impl in ("mapper", "cache"):
         wl, wo = RD.iterator_roles(fx, rep, "C04.4", impl)
         if wl:
